@@ -136,30 +136,41 @@ def _parse_report(path, wanted):
     return res
 
 
-def run_kani(overlay, package, harnesses, jobs=8, harness_timeout_s=900, stubbing=False, mem_gb=14, logname="kani"):
-    """Run `cargo kani -p <package>` for the listed fully-qualified harness names.
-    Returns (dict harness -> HarnessResult, log_path, wall_s)."""
-    report = overlay.path("kani_report_%s.json" % logname)
+def run_kani(overlay, package, harnesses, jobs=8, harness_timeout_s=900, stubbing=False, mem_gb=16, logname="kani", batch=48):
+    """Run `cargo kani -p <package>` for the listed fully-qualified harness names (in batches: the kani driver keeps every CBMC
+    report in memory and would exceed the per-process memory limit with hundreds of harnesses).
+    Returns (dict harness -> HarnessResult, log_path, wall_s, build_failed)."""
+    all_res = {}
+    t_all = time.time()
+    build_failed = False
     logp = overlay.path("kani_%s.log" % logname)
-    if os.path.exists(report):
-        os.remove(report)
-    cmd = ["cargo", "kani", "-p", package, "-Z", "unstable-options"]
-    if stubbing:
-        cmd += ["-Z", "stubbing"]
-    cmd += KANI_FEATURES.get(package, [])
+    open(logp, "w").close()
+    chunks = [harnesses[i:i + batch] for i in range(0, len(harnesses), batch)] or [[]]
+    for ci, hs in enumerate(chunks):
+        if not hs:
+            continue
+        report = overlay.path("kani_report_%s_%d.json" % (logname, ci))
+        if os.path.exists(report):
+            os.remove(report)
+        cmd = ["cargo", "kani", "-p", package, "-Z", "unstable-options"]
+        if stubbing:
+            cmd += ["-Z", "stubbing"]
+        cmd += KANI_FEATURES.get(package, [])
+        for h in hs:
+            cmd += ["--harness", h]
+        cmd += ["--exact", "-j", str(max(1, min(jobs, len(hs)))), "--output-format", "terse",
+                "--harness-timeout", "%ds" % harness_timeout_s, "--export-json", report]
+        sh = "ulimit -s unlimited 2>/dev/null; ulimit -v %d; exec %s" % (mem_gb * 1024 * 1024, " ".join(_q(c) for c in cmd))
+        with open(logp, "a") as lf:
+            subprocess.run(["bash", "-c", sh], cwd=overlay.dir, env=base_env(), stdout=lf, stderr=subprocess.STDOUT)
+        if not os.path.exists(report):
+            # a build failure (or a crashed driver) leaves no report at all
+            build_failed = True
+            break
+        all_res.update(_parse_report(report, hs))
     for h in harnesses:
-        cmd += ["--harness", h]
-    cmd += ["--exact", "-j", str(max(1, min(jobs, len(harnesses)))), "--output-format", "terse",
-            "--harness-timeout", "%ds" % harness_timeout_s, "--export-json", report]
-    sh = "ulimit -s unlimited 2>/dev/null; ulimit -v %d; exec %s" % (mem_gb * 1024 * 1024, " ".join(_q(c) for c in cmd))
-    t0 = time.time()
-    with open(logp, "w") as lf:
-        p = subprocess.run(["bash", "-c", sh], cwd=overlay.dir, env=base_env(), stdout=lf, stderr=subprocess.STDOUT)
-    wall = time.time() - t0
-    res = _parse_report(report, harnesses)
-    # a build failure leaves no report at all
-    build_failed = not os.path.exists(report)
-    return res, logp, wall, build_failed
+        all_res.setdefault(h, HarnessResult(h))
+    return all_res, logp, time.time() - t_all, build_failed
 
 
 def _q(s):
